@@ -220,22 +220,22 @@ Proof.
   - destruct (kern s) eqn:Ek; try exact HT. unfold InvT; simp.
     split; [intros x Hx Hn; specialize (T1 x Hx Hn); discriminate | intros Hi; specialize (T2 Hi); discriminate].
   - break; try exact HT; unfold InvT; simp; (split; [|exact T2]); intros x Hx Hn; ins;
-      destruct Hx as [[Hx|[Hx|[]]]|Hx]; try reflexivity; try (subst; discriminate); try (apply T1; auto; fail); rewrite <- Heqk; apply T1; auto.
-  - destruct (taken s) eqn:Et; [exact HT|]. unfold InvT; simp. split; [|exact T2]. intros x Hx Hn. apply T1; [|exact Hn].
+      destruct Hx as [[Hx|[Hx|[]]]|Hx]; try reflexivity; try (subst; discriminate); apply (T1 x); auto.
+  - destruct (taken s) eqn:Et; [exact HT|]. unfold InvT; simp. split; [|exact T2]. intros x Hx Hn. apply (T1 x); [|exact Hn].
     ins. intuition.
   - destruct (knd s); [exact HT| |]; (destruct (closed s); unfold InvT; simp; exact HT).
   - destruct (pick t (tears s)) as [[[e u] rest]|] eqn:Ep; [|exact HT].
-    unfold InvT; simp. split; [|exact T2]. intros x Hx Hn. apply T1; [|exact Hn].
+    unfold InvT; simp. split; [|exact T2]. intros x Hx Hn. apply (T1 x); [|exact Hn].
     destruct (managed s); destruct (pend s); lens; ins; subst; intuition discriminate.
   - destruct (knd s); [exact HT| |];
       (destruct (closed s); [exact HT|];
        destruct o as [n|e n];
        [ unfold InvT; simp; exact HT
        | destruct (closing k); [destruct (inline_teardown k)|]; unfold InvT; simp; try exact HT;
-         (split; [|exact T2]); intros x Hx Hn; apply T1; [|exact Hn];
+         (split; [|exact T2]); intros x Hx Hn; apply (T1 x); [|exact Hn];
          destruct (managed s); destruct (pend s); lens; ins; subst; intuition discriminate ]).
   - destruct (jobs s) as [|[e|r] rest] eqn:Ej; [exact HT| |]; unfold InvT; simp; (split; [|exact T2]);
-      intros x Hx Hn; apply T1; auto; lens; ins; intuition.
+      intros x Hx Hn; apply (T1 x); auto; lens; ins; intuition.
 Qed.
 
 (* ---------------------------------------------------------------------------------------------------------------- *)
@@ -256,12 +256,13 @@ Qed.
 Definition Inv (s : st) : Prop := InvK s /\ InvC s /\ InvE s /\ InvD s /\ InvT s /\ InvO s.
 
 Lemma init_Inv : Inv init.
-Proof. repeat split; try apply init_C; try apply init_E; try apply init_D; try apply init_T; try apply init_O. Qed.
+Proof. unfold Inv. split; [intros _; reflexivity|]. split; [apply init_C|]. split; [apply init_E|]. split; [apply init_D|]. split; [apply init_T|apply init_O]. Qed.
 
 Lemma step_Inv s a : Inv s -> Inv (fst (step s a)).
 Proof.
-  intros (K & C & E & D & T & O). repeat split.
-  - apply step_K, K. - apply step_C; auto. - apply step_E; auto. - apply step_D; auto. - apply step_T; auto. - apply step_O; auto.
+  intros (K & C & E & D & T & O). unfold Inv.
+  split; [apply step_K, K|]. split; [apply step_C; auto|]. split; [apply step_E; auto|]. split; [apply step_D; auto|].
+  split; [apply step_T; auto|apply step_O; auto].
 Qed.
 
 Lemma run_Inv acts : forall s, Inv s -> Inv (run s acts).
@@ -272,3 +273,131 @@ Proof. induction a as [|x a IH]; intros s; cbn; auto. Qed.
 
 Lemma trace_app a b : forall s, trace s (a ++ b) = trace s a ++ trace (run s a) b.
 Proof. induction a as [|x a IH]; intros s; cbn; auto. rewrite IH, app_assoc. reflexivity. Qed.
+
+(* ---------------------------------------------------------------------------------------------------------------- *)
+(* consequences *)
+Definition closes_of (tr : list ev) : list (option nat) := flat_map (fun e => match e with EClose x => [x] | _ => [] end) tr.
+Definition dials_of (tr : list ev) : list (option nat) := flat_map (fun e => match e with EDial x => [x] | _ => [] end) tr.
+Definition opens_of (tr : list ev) : nat := length (filter (fun e => match e with EOpen => true | _ => false end) tr).
+
+Lemma step_notes s a : InvK s -> notes (fst (step s a)) = notes s ++ closes_of (snd (step s a))
+                    /\ dials (fst (step s a)) = dials s ++ dials_of (snd (step s a)).
+Proof.
+  intros HK. destruct a; cbn [step]; unfold teardown, set_closed; break; simp; cbn; rewrite ?app_nil_r; auto;
+    rewrite (HK Heqk); cbn; auto.
+Qed.
+
+Lemma closes_of_app a b : closes_of (a ++ b) = closes_of a ++ closes_of b.
+Proof. unfold closes_of. now rewrite flat_map_app. Qed.
+Lemma dials_of_app a b : dials_of (a ++ b) = dials_of a ++ dials_of b.
+Proof. unfold dials_of. now rewrite flat_map_app. Qed.
+
+Lemma run_notes acts : forall s, InvK s -> notes (run s acts) = notes s ++ closes_of (trace s acts)
+                              /\ dials (run s acts) = dials s ++ dials_of (trace s acts).
+Proof.
+  induction acts as [|a acts IH]; intros s HK; cbn [run trace]; [cbn; rewrite !app_nil_r; auto|].
+  destruct (IH (fst (step s a)) (step_K s a HK)) as [-> ->]. destruct (step_notes s a HK) as [-> ->].
+  rewrite closes_of_app, dials_of_app, !app_assoc. auto.
+Qed.
+
+Lemma notes_le_1 s : Inv s -> length (notes s) <= 1.
+Proof.
+  intros (_ & (H1 & H2 & _) & _). destruct (managed s); [specialize (H1 eq_refl)|destruct (H2 eq_refl)]; destruct (closed s); cbn in *; lia.
+Qed.
+
+Lemma dials_le_1 s : Inv s -> length (dials s) <= 1.
+Proof. intros (_ & _ & _ & (_ & D2 & _) & _). unfold dsum in D2. lia. Qed.
+
+Lemma fdcl_le_1 s : Inv s -> fdcl s <= 1.
+Proof. intros (_ & (_ & _ & H3 & _) & _). destruct (closed s); cbn in *; lia. Qed.
+
+Lemma quiescent_spec s : quiescent s = true <-> tears s = [] /\ taken s = [] /\ jobs s = [] /\ imm s = false.
+Proof.
+  unfold quiescent. destruct (tears s), (taken s), (jobs s), (imm s); cbn; intuition discriminate.
+Qed.
+
+Lemma quiescent_once s : Inv s -> quiescent s = true ->
+  fdcl s = b2n (closed s) /\
+  (managed s = true -> closed s = true -> exists e, notes s = [e] /\ flip s = Some e) /\
+  (closed s = false -> notes s = []) /\
+  (managed s = false -> notes s = []).
+Proof.
+  intros (_ & HC & (E1 & _) & _) Hq. apply quiescent_spec in Hq. destruct Hq as (T & _ & J & _).
+  pose proof HC as (H1 & H2 & H3 & _). rewrite T, J in *. cbn in *. repeat split.
+  - lia.
+  - intros Hm Hc. specialize (H1 Hm). rewrite Hc in H1. cbn in H1. destruct (notes s) as [|e [|]] eqn:En; cbn in H1; try lia.
+    exists e. split; auto. apply E1. right; right. left; reflexivity.
+  - intros Hc. destruct (open_lists_nil s HC Hc) as (_ & _ & N). exact N.
+  - intros Hm. destruct (H2 Hm) as [Hz _]. apply length_zero_iff_nil. lia.
+Qed.
+
+Lemma quiescent_dial s : Inv s -> quiescent s = true -> knd s = KDial -> rej s = false ->
+  (closed s = true \/ pend s = false) -> exists r, dials s = [r].
+Proof.
+  intros (_ & _ & _ & (D1 & _ & _ & D4) & _) Hq Hk Hr Hc. apply quiescent_spec in Hq. destruct Hq as (T & K & J & I).
+  specialize (D1 Hk Hr). unfold dsum in D1. rewrite K, J, I in D1. cbn in D1.
+  assert (Hp : pend s = false).
+  { destruct Hc as [Hc|Hp]; auto. destruct (pend s) eqn:Ep; auto. exfalso. apply (D4 eq_refl Hc). exact T. }
+  rewrite Hp in D1. cbn in D1. destruct (dials s) as [|r [|]]; cbn in D1; try lia. exists r; reflexivity.
+Qed.
+
+(* settling *)
+Lemma next_none s : next s = None <-> quiescent s = true.
+Proof.
+  unfold next, quiescent. destruct (tears s) as [|[[t e] u] ?], (taken s), (jobs s), (imm s); cbn; intuition discriminate.
+Qed.
+
+Lemma next_decreases s a : next s = Some a -> measure (fst (step s a)) < measure s.
+Proof.
+  unfold next, measure. destruct (tears s) as [|[[t e] u] tl] eqn:Et.
+  - destruct (taken s) as [|r tk] eqn:Ek.
+    + destruct (imm s) eqn:Ei.
+      * intros H; inversion H; subst. cbn [step]. rewrite Ei. simp. rewrite Et, Ek, app_length. cbn. lia.
+      * destruct (jobs s) as [|j js] eqn:Ej; [discriminate|]. intros H; inversion H; subst. cbn [step]. rewrite Ej.
+        destruct j; simp; rewrite Et, Ek, Ei; cbn; lia.
+    + intros H; inversion H; subst. cbn [step]. rewrite Ek. simp. rewrite Et. cbn. lia.
+  - intros H; inversion H; subst. cbn [step]. rewrite Et. cbn [pick]. rewrite Nat.eqb_refl. simp.
+    rewrite app_length. destruct (managed s); cbn; lia.
+Qed.
+
+Lemma settle_quiescent fuel : forall s, measure s <= fuel -> quiescent (run s (settle_acts fuel s)) = true.
+Proof.
+  induction fuel as [|f IH]; intros s Hm; cbn [settle_acts].
+  - cbn. apply next_none. unfold measure in Hm. unfold next.
+    destruct (tears s) as [|[[? ?] ?] ?], (taken s), (imm s), (jobs s); cbn in *; auto; lia.
+  - destruct (next s) as [a|] eqn:En; [|cbn; now apply next_none].
+    cbn [run]. apply IH. pose proof (next_decreases s a En). lia.
+Qed.
+
+(* the flag is monotone; the flip records the cause *)
+Lemma step_closed_mono s a : InvK s -> closed s = true -> closed (fst (step s a)) = true /\ flip (fst (step s a)) = flip s.
+Proof.
+  intros HK Hc. destruct a; cbn [step]; unfold teardown, set_closed; rewrite ?Hc; break; simp; auto; try discriminate.
+  all: rewrite (HK Heqk) in Hc; discriminate.
+Qed.
+
+Lemma run_closed_mono acts : forall s, InvK s -> closed s = true -> closed (run s acts) = true /\ flip (run s acts) = flip s.
+Proof.
+  induction acts as [|a acts IH]; intros s HK Hc; cbn; auto.
+  destruct (step_closed_mono s a HK Hc) as [H1 H2]. destruct (IH _ (step_K s a HK) H1) as [H3 H4]. split; congruence.
+Qed.
+
+Lemma step_flip s a : InvK s -> closed s = false -> closed (fst (step s a)) = true -> flip (fst (step s a)) = cause s a.
+Proof.
+  intros HK Hc. destruct a; cbn [step cause]; unfold teardown, set_closed; rewrite ?Hc; break; simp; auto; try discriminate; try congruence.
+  all: try (rewrite (HK eq_refl) in *; cbn in *; discriminate).
+Qed.
+
+Lemma flip_origin acts : forall s e, Inv s -> closed s = false -> flip (run s acts) = Some e ->
+  exists pre a post, acts = pre ++ a :: post /\ closed (run s pre) = false /\ cause (run s pre) a = Some e
+                     /\ closed (run s (pre ++ [a])) = true.
+Proof.
+  induction acts as [|a acts IH]; intros s e HI Hc Hf; cbn [run] in Hf.
+  - destruct HI as (_ & (_ & _ & _ & H4 & _) & _). destruct (H4 Hc) as (Hn & _). congruence.
+  - destruct (closed (fst (step s a))) eqn:Ec1.
+    + exists [], a, acts. cbn. repeat split; auto.
+      destruct HI as (HK & _). destruct (run_closed_mono acts _ (step_K s a HK) Ec1) as [_ Hfl]. rewrite Hfl in Hf.
+      rewrite <- (step_flip s a HK Hc Ec1). exact Hf.
+    + destruct (IH _ e (step_Inv s a HI) Ec1 Hf) as (pre & b & post & E1 & E2 & E3 & E4).
+      exists (a :: pre), b, post. subst. cbn. repeat split; auto.
+Qed.
